@@ -135,7 +135,7 @@ def main() -> int:
     rep = vlib.Report('C14', 'translation_validation', tier)
     ps = program_set(tier, vlib.seed(), samples_quick=60, samples_thorough=1200)
     rng = random.Random(vlib.seed() + 14)
-    pool = ps['fixed'] + ps['conditional'][:: (5 if tier == 'quick' else 1)] + ps['sampled'] + \
+    pool = ps['fixed'] + ps['verbatim'] + ps['conditional'][:: (5 if tier == 'quick' else 1)] + ps['sampled'] + \
         (rng.sample(ps['exhaustive'], min(len(ps['exhaustive']), 150)) if tier == 'quick' else ps['exhaustive'][::3])
     lay_names = [l.name for l in LAYOUTS]
     if tier == 'quick':
